@@ -466,7 +466,7 @@ func (e *Exec) evalGhostBuiltin(st *State, call *ast.CallExpr, name string) Term
 		}
 		e.unsupported(call.Pos(), "__called(%q): no such call in the function", name)
 		return False
-	case "__lastret":
+	case "__lastret", "__lastretT":
 		tv, _ := e.tvOf(call.Args[0])
 		name := strings.Trim(tv.Value.ExactString(), "\"")
 		tv2, _ := e.tvOf(call.Args[1])
@@ -485,7 +485,7 @@ func (e *Exec) evalGhostBuiltin(st *State, call *ast.CallExpr, name string) Term
 		}
 		e.unsupported(call.Pos(), "__lastret(%q, %d): no such result", name, i)
 		return Int(0)
-	case "__arg":
+	case "__arg", "__argT":
 		tv, _ := e.tvOf(call.Args[0])
 		i := 0
 		fmt.Sscanf(tv.Value.ExactString(), "%d", &i)
@@ -622,6 +622,39 @@ func (e *Exec) evalGhostBuiltin(st *State, call *ast.CallExpr, name string) Term
 		return e.enumPred(st, call)
 	case "__enumlemma":
 		return e.enumLemma(st, call)
+	case "__samebytes":
+		// content equality of two byte slices (nil and empty are the same content)
+		a, b := e.evalUnboxed(st, call.Args[0]), e.evalUnboxed(st, call.Args[1])
+		if a.Sort != SBytes || b.Sort != SBytes {
+			e.unsupported(call.Pos(), "__samebytes on %s / %s", a.Sort, b.Sort)
+			return True
+		}
+		return Or(Eq(a, b), And(Eq(app(SInt, "bytes_len", a), Int(0)), Eq(app(SInt, "bytes_len", b), Int(0))))
+	case "__owned":
+		// __owned(x): the slice expression x cannot share its backing array with a slice parameter of the verified
+		// function (syntactic data-flow: x is not a parameter, nor assigned, re-sliced or appended from one).
+		// __owned(__arg(0)) at a send statement refers to the expression being sent.
+		x := call.Args[0]
+		if c, ok := x.(*ast.CallExpr); ok {
+			if id, ok := c.Fun.(*ast.Ident); ok && (id.Name == "__arg") && e.sendValue != nil {
+				x = e.sendValue
+			}
+		}
+		id := rootIdent(x)
+		if id == nil {
+			if _, isCall := x.(*ast.CallExpr); isCall {
+				return True // a fresh result (make, conversion of a call result)
+			}
+			return False
+		}
+		o := e.objOf(id)
+		if o == nil && e.Fn != nil {
+			o = e.frames[0].info.Uses[id]
+		}
+		if o != nil && e.tainted != nil && e.tainted[o] {
+			return False
+		}
+		return True
 	case "__dyn":
 		v := e.eval(st, call.Args[0])
 		tv, _ := e.tvOf(call.Args[1])
